@@ -23,6 +23,11 @@ type Case struct {
 	DisableBuiltin bool           `json:"disable_builtin,omitempty"`
 	Salt           uint64         `json:"salt,omitempty"`
 	Records        []engine.Bytes `json:"records"`
+	// Callbacks (push-enabled servers only): before the records the server
+	// issues two callbacks, ids 1 and 2; one has a deadline that passes before
+	// the first record, the other stays outstanding. 1: id 1 stays outstanding;
+	// 2: id 2 does.  Records may bear those ids.
+	Callbacks int `json:"callbacks,omitempty"`
 }
 
 func probe(i int) []byte {
@@ -30,12 +35,30 @@ func probe(i int) []byte {
 }
 
 func cfgOf(c Case) refrpc.Config {
-	return refrpc.Config{AllowPush: c.AllowPush, Builtin: !c.DisableBuiltin,
+	cfg := refrpc.Config{AllowPush: c.AllowPush, Builtin: !c.DisableBuiltin,
 		Resolve: func(m string) bool { return sim.Known[m] }}
+	if c.AllowPush && c.Callbacks > 0 {
+		// the outstanding one is consumed by the first well-formed reply that
+		// bears its id (no output either way); a defective member that is not
+		// request-shaped is consumed while it is outstanding and answered after
+		out := fmt.Sprint(c.Callbacks)
+		cfg.MaybeCallback = func(id string) bool { return id == out }
+	}
+	return cfg
 }
 
 func run(t *testing.T, c Case) engine.Verdict {
 	sc := sim.Scenario{Cfg: sim.Config{AllowPush: c.AllowPush, DisableBuiltin: c.DisableBuiltin, Salt: c.Salt, Concurrency: 4}}
+	base := 0
+	if c.AllowPush && c.Callbacks > 0 {
+		d1, d2 := -1, 1000
+		if c.Callbacks == 2 {
+			d1, d2 = 1000, -1
+		}
+		sc.Steps = append(sc.Steps, sim.Step{Op: "push", Push: "callback", K: 1, D: d1}, sim.Step{Op: "push", Push: "callback", K: 2, D: d2},
+			sim.Step{Op: "advance", D: 1500})
+		base = len(sc.Steps)
+	}
 	for i, r := range c.Records {
 		sc.Steps = append(sc.Steps, sim.Step{Op: "send", Rec: r}, sim.Step{Op: "send", Rec: probe(i)})
 	}
@@ -70,12 +93,12 @@ func run(t *testing.T, c Case) engine.Verdict {
 			v.Labels = append(v.Labels, "dontcare:parking-method")
 			continue
 		}
-		if p := oracle.MatchReplies("C02", exp, wire[2*i], invs[2*i]); p != nil {
+		if p := oracle.MatchReplies("C02", exp, wire[base+2*i], invs[base+2*i]); p != nil {
 			return engine.Failf(p.Sig, "record %s (push=%v builtin=%v): %s", engine.Q(r), c.AllowPush, !c.DisableBuiltin, p.Msg)
 		}
 		// Liveness probe.
 		pexp := refrpc.Classify(cfg, probe(i))
-		if p := oracle.MatchReplies("C02", pexp, wire[2*i+1], invs[2*i+1]); p != nil {
+		if p := oracle.MatchReplies("C02", pexp, wire[base+2*i+1], invs[base+2*i+1]); p != nil {
 			return engine.Failf("C02/not-serving-after-record", "after record %s the probe call was not served: %s", engine.Q(r), p.Msg)
 		}
 		lab, nt := describe(exp)
@@ -135,6 +158,9 @@ func enumProduct(env engine.Env, yield func(Case) bool) {
 				continue
 			}
 			c := Case{AllowPush: cf[0], DisableBuiltin: cf[1], Salt: uint64(env.Seed)*1000 + uint64(ci)}
+			if c.AllowPush {
+				c.Callbacks = g % 3
+			}
 			for n := start; n < start+groupSize && n < gen.ProductSize(); n++ {
 				c.Records = append(c.Records, engine.Bytes(gen.NthMember(n)))
 			}
@@ -148,6 +174,9 @@ func enumProduct(env engine.Env, yield func(Case) bool) {
 // genBatch: arrays of 1-3 members sampled from the product, plus other top-level shapes.
 func genBatch(t *rapid.T) Case {
 	c := Case{AllowPush: rapid.Bool().Draw(t, "push"), DisableBuiltin: rapid.Bool().Draw(t, "nobuiltin"), Salt: rapid.Uint64().Draw(t, "salt")}
+	if c.AllowPush {
+		c.Callbacks = rapid.IntRange(0, 2).Draw(t, "callbacks")
+	}
 	n := rapid.IntRange(1, 12).Draw(t, "nrec")
 	for i := 0; i < n; i++ {
 		k := rapid.IntRange(1, 3).Draw(t, "members")
@@ -168,6 +197,9 @@ func genBatch(t *rapid.T) Case {
 // genRandom: near-valid JSON texts from a grammar, and byte-level mutations.
 func genRandom(t *rapid.T) Case {
 	c := Case{AllowPush: rapid.Bool().Draw(t, "push"), DisableBuiltin: rapid.Bool().Draw(t, "nobuiltin"), Salt: rapid.Uint64().Draw(t, "salt")}
+	if c.AllowPush {
+		c.Callbacks = rapid.IntRange(0, 2).Draw(t, "callbacks")
+	}
 	n := rapid.IntRange(1, 10).Draw(t, "nrec")
 	for i := 0; i < n; i++ {
 		c.Records = append(c.Records, engine.Bytes(gen.InboundRecord(t)))
